@@ -382,6 +382,19 @@ void sched_harness_point(int what) {
   maybe_switch(t, &g_harness_site, true);
 }
 
+static mi_sim_site_t g_os_site = {"simos", "os_call", 0, MI_SIM_HARNESS, 0, 0};
+void sched_os_point(int kind) {
+  VThread* t = tl_cur;
+  if (!g_active || t == nullptr || t->passthrough) return;
+  if (g_os_site.id == 0) site_register(&g_os_site, "os_call");
+  t->last_site = &g_os_site;
+  g_stats.steps++; t->steps++; t->call_steps++;
+  g_event_hash.add(((uint64_t)t->idx << 56) ^ 0x05CA11ull ^ ((uint64_t)kind << 24));
+  clear_yields(t);
+  budget_check(t);
+  maybe_switch(t, &g_os_site, false);
+}
+
 void sched_call_begin() { if (tl_cur) tl_cur->call_steps = 0; }
 void sched_set_passthrough(bool on) { if (tl_cur) { if (on) tl_cur->passthrough++; else if (tl_cur->passthrough > 0) tl_cur->passthrough--; } }
 int  sched_self() { return tl_cur ? tl_cur->idx : -1; }
@@ -650,12 +663,15 @@ void sched_init() {
     struct timespec now; clock_gettime(CLOCK_MONOTONIC, &now);
     double el = (double)(now.tv_sec - st.tv_sec) + (double)(now.tv_nsec - st.tv_nsec) * 1e-9;
     if (el > g_cfg.wall_limit_s) {
-      // not a property verdict: the machinery ran out of wall-clock time
-      char b[200]; snprintf(b, sizeof b, "wall-clock limit %.0fs exceeded (steps=%llu)", g_cfg.wall_limit_s, (unsigned long long)g_stats.steps);
-      const char* m = b; g_finishing = true;
-      JsonOut o; o.s = "{"; o.kvs("status", "infra"); o.kvs("oracle", "timeout"); o.kvs("msg", m); o.kv("seed", g_cfg.seed); o.s += "}\n";
+      // every source of time in a run is simulated, so a run that does not finish hangs inside the code under test
+      // (a loop that passes no scheduling point, e.g. walking a cyclic free list); the checks confirm it by replaying
+      const VThread* c = (g_cur >= 0 ? &g_vt[g_cur] : nullptr);
+      char b[300]; snprintf(b, sizeof b, "run did not finish within %.0fs of wall-clock time: vt%d makes no progress after scheduling point #%llu (last site %s:%d)", g_cfg.wall_limit_s,
+                            g_cur, (unsigned long long)g_stats.steps, (c && c->last_site) ? c->last_site->func : "?", (c && c->last_site) ? c->last_site->line : 0);
+      g_finishing = true;
+      JsonOut o; o.s = "{"; o.kvs("status", "violation"); o.kvs("oracle", "hang"); o.kvs("msg", b); o.kv("seed", g_cfg.seed); o.kvs("event_hash", "hang"); o.s += "}\n";
       ssize_t w = write(g_result_fd, o.s.data(), o.s.size()); (void)w;
-      _exit(2);
+      _exit(0);
     }
   }
 }
